@@ -57,7 +57,14 @@ def guard_converter(s):
     return '# {}\n_ = {}\nif _ > 0:  # Ignore negative values\n    {} = _'.format(s.equation.replace('\n', ' '), rhs, lhs)
 
 
-CONVERTERS = {'default': None, 'identity': identity_converter, 'marker': marker_converter, 'guard': guard_converter}
+def literal_test_converter(s):
+    # valid code that the compiler warns about (an identity test against a literal): still the same class by every route
+    if s.type.name == 'VERBATIM':
+        return s.code
+    return 'if 1 is 1:  # always\n' + '\n'.join('    ' + line for line in s.code.split('\n'))
+
+
+CONVERTERS = {'default': None, 'identity': identity_converter, 'marker': marker_converter, 'guard': guard_converter, 'literal-test': literal_test_converter}
 
 
 def program_scripts(tier):
